@@ -116,6 +116,9 @@ pub struct SrcState {
     /// the transport dies when the library enters the source with this many calls made in the current step
     pub cut_at: Option<u64>,
     pub dead: Arc<std::sync::atomic::AtomicBool>,
+    /// the order in which the source hands out the items of a set or diff is its own business: false = origins, router keys,
+    /// ASPAs; true = the reverse (items a low protocol version cannot carry come first)
+    pub order_desc: bool,
 }
 
 impl SrcState {
@@ -175,7 +178,7 @@ fn rank(it: &Item) -> u64 {
 }
 
 /// The specification's DiffSeq / FullSeq (same enumeration order).
-pub fn diff_seq(old: &[Item], new: &[Item]) -> Vec<(Payload, Action)> {
+pub fn diff_seq(old: &[Item], new: &[Item], desc: bool) -> Vec<(Payload, Action)> {
     let mut wd: Vec<&Item> = old
         .iter()
         .filter(|it| !new.contains(it) && !(it.0 == 2 && new.iter().any(|n| n.0 == 2 && n.1 == it.1)))
@@ -183,6 +186,10 @@ pub fn diff_seq(old: &[Item], new: &[Item]) -> Vec<(Payload, Action)> {
     let mut an: Vec<&Item> = new.iter().filter(|it| !old.contains(it)).collect();
     wd.sort_by_key(|i| rank(i));
     an.sort_by_key(|i| rank(i));
+    if desc {
+        wd.reverse();
+        an.reverse();
+    }
     wd.into_iter().map(|i| (payload_of(i), Action::Withdraw)).chain(an.into_iter().map(|i| (payload_of(i), Action::Announce))).collect()
 }
 
@@ -230,7 +237,7 @@ impl PayloadSource for Source {
         s.tick();
         let cur = s.cur().clone();
         s.ev(json!({"ev": "query", "kind": "full", "target": [cur.session, cur.serial]}));
-        (s.state_of(&cur), ItemList { src: self.0.clone(), items: diff_seq(&[], &cur.data), pos: 0 })
+        (s.state_of(&cur), ItemList { src: self.0.clone(), items: diff_seq(&[], &cur.data, s.order_desc), pos: 0 })
     }
     fn diff(&self, state: State) -> Option<(State, Self::Diff)> {
         let mut s = self.0.lock().unwrap();
@@ -245,7 +252,7 @@ impl PayloadSource for Source {
             return None;
         };
         s.ev(json!({"ev": "query", "kind": "diff", "target": [cur.session, cur.serial]}));
-        Some((s.state_of(&cur), ItemList { src: self.0.clone(), items: diff_seq(&from.data, &cur.data), pos: 0 }))
+        Some((s.state_of(&cur), ItemList { src: self.0.clone(), items: diff_seq(&from.data, &cur.data, s.order_desc), pos: 0 }))
     }
     fn timing(&self) -> Timing {
         let mut s = self.0.lock().unwrap();
@@ -427,6 +434,8 @@ fn run_behaviour(c: &Value, serial_base: u32) -> Result<(), (String, String)> {
         ready: true,
         cut_at: None,
         dead: Default::default(),
+        // the order in which the source lists a set is arbitrary: descending for the runs on a shifted serial base
+        order_desc: serial_base != 0,
     })));
     let mk_state = |s: &Value| -> Option<State> {
         let a = s.as_array()?;
@@ -581,9 +590,9 @@ fn rand_data(rng: &mut Rng) -> Vec<Item> {
             d.push((k, name.to_string(), 0));
         }
     }
-    match rng.below(3) {
+    match rng.below(4) {
         0 => {}
-        n => d.push((2, "c1".to_string(), n)),
+        n => d.push((2, "c1".to_string(), n - 1)),      // an announced ASPA may have no providers at all
     }
     d
 }
@@ -609,7 +618,7 @@ pub fn drive(args: &[String]) {
     evlog.lock().unwrap().push(json!({"ev": "init", "v": {"session": 1, "serial": 0, "data": v0.data.iter().map(|i| json!([i.0, i.1, i.2])).collect::<Vec<_>>()},
         "state": init_state, "data": init_data.iter().map(|i| json!([i.0, i.1, i.2])).collect::<Vec<_>>()}));
     let src = Source(Arc::new(Mutex::new(SrcState {
-        evlog: Some(evlog.clone()), hist: vec![v0], timing: 1, window, serial_base, calls: 0, pending: Vec::new(), ready: true, cut_at: None, dead: Default::default(),
+        evlog: Some(evlog.clone()), hist: vec![v0], timing: 1, window, serial_base, calls: 0, pending: Vec::new(), ready: true, cut_at: None, dead: Default::default(), order_desc: false,
     })));
     let mut target = Target::default();
     target.data = init_data.into_iter().collect();
